@@ -1,5 +1,5 @@
 From Coq Require Import ZArith List Extraction ExtrOcamlBasic.
-From LX Require Import Model.ModuleWf Model.Gate Model.ModLoad Model.C669Load Model.MtmLoad.
+From LX Require Import Model.ModuleWf Model.Gate Model.ModLoad Model.C669Load Model.MtmLoad Model.S3MLoad.
 Cd "extracted".
-Extraction "modload_model.ml" mod_raw c669_raw mtm_raw loader_postb finish public_wfb.
+Extraction "modload_model.ml" mod_raw c669_raw mtm_raw s3m_raw loader_postb finish public_wfb.
 Cd "..".
